@@ -43,11 +43,14 @@ class Gamma:
         import legacycrypt
         self.crypt = legacycrypt.crypt
         self.kind, self.enc, self.rnd = kind, encoding, rnd
+        # u2: sometimes a name with leading white space (legal: only ':' and line terminators are refused)
+        u2 = rnd.choice(["b\xf6b", " b\xf6b", "\x0bb\xf6b", "b\xf6b"])
         if kind == "htpasswd":
             # u3: a name of exactly 255 bytes in this encoding (the longest admissible one)
-            self.keys = {"u1": "alice", "u2": "b\xf6b", "u3": ("\xe9" * 127 + "x") if encoding == "utf-8" else "\xe9" * 255}
+            self.keys = {"u1": "alice", "u2": u2, "u3": ("\xe9" * 127 + "x") if encoding == "utf-8" else "\xe9" * 255}
         else:
-            self.keys = {"u1": ("alice", "r1"), "u2": ("b\xf6b", "r1"),
+            # u2: sometimes alice in the EMPTY realm (legal; distinct from the default realm "r1")
+            self.keys = {"u1": ("alice", "r1"), "u2": rnd.choice([(u2, "r1"), ("alice", ""), (u2, "")]),
                          "u3": ("alice", ("\xe9" * 127 + " ") if encoding == "utf-8" else "r\xe9alm " * 31 + "1234567")}
         self.pws = {"p1": "p\xe4ssword1", "p2": "other pw"}
         # refused names: separators, control characters, more than 255 BYTES (not characters)
@@ -112,7 +115,9 @@ class Gamma:
         return self.enc_b(k[0]) + b":" + self.enc_b(k[1]) + b":" + h + b"\n"
 
     def content(self, c):
-        return b"".join(self.line(l) for l in c)
+        data = b"".join(self.line(l) for l in c)
+        # sometimes the last line has no line terminator (same content)
+        return data[:-1] if data.endswith(b"\n") and self.rnd.random() < .4 else data
 
     # --- independent reader -------------------------------------------------
     def read(self, data):
@@ -151,7 +156,9 @@ def make_object(G: Gamma, path, autosave):
     if G.kind == "htpasswd":
         ctx = CryptContext(schemes=["md5_crypt", "des_crypt"], deprecated=["des_crypt"])
         return HtpasswdFile(path, context=ctx, autosave=autosave, encoding=G.enc)
-    return HtdigestFile(path, autosave=autosave, encoding=G.enc)
+    # (sometimes with a default realm: explicit realms - the empty one included - must still be honoured)
+    kw = {"default_realm": "r1"} if G.rnd.random() < .5 else {}
+    return HtdigestFile(path, autosave=autosave, encoding=G.enc, **kw)
 
 
 def call(G, f, st, path, stamp):
@@ -259,6 +266,9 @@ def replay_behaviour(chk, kind, enc, beh, rnd, tmpdir):
             if val is not None and st["op"] == "get_hash":
                 a = G.abstract(st["arg"][0], val)
                 w = st["val"]
+                if not isinstance(w, dict):
+                    problems.append(("get_hash", f"get_hash gave {a}, spec {w}"))
+                    w = a
                 if kind == "htdigest" and w.get("gen") == "old":
                     w = {"pw": w["pw"], "gen": "new"}
                 if a != w:
